@@ -28,6 +28,7 @@ type Stats struct {
 type internalStats struct {
 	inboundSequencerNumber           sequencenumber.Unwrapper
 	inboundSequenceNumberInitialized bool
+	inboundSequenceNumberOffset      uint16
 	inboundFirstSequenceNumber       int64
 	inboundHighestSequenceNumber     int64
 
@@ -122,7 +123,15 @@ func (r *recorder) recordIncomingRTP(latestStats internalStats, incoming *incomi
 	if incoming.header.SSRC != r.ssrc {
 		return latestStats
 	}
-	sequenceNumber := latestStats.inboundSequencerNumber.Unwrap(incoming.header.SequenceNumber)
+	if !latestStats.inboundSequenceNumberInitialized {
+		// The unwrapper never goes below zero. Unwrap relative to the first sequence number, shifted to
+		// the middle of the 16 bit range, so that packets reordered before a first packet that is close
+		// to zero are unwrapped downwards and not one cycle upwards.
+		latestStats.inboundSequenceNumberOffset = incoming.header.SequenceNumber - (1 << 15)
+	}
+	sequenceNumber := latestStats.inboundSequencerNumber.Unwrap(
+		incoming.header.SequenceNumber - latestStats.inboundSequenceNumberOffset,
+	)
 	if !latestStats.inboundSequenceNumberInitialized {
 		latestStats.inboundFirstSequenceNumber = sequenceNumber
 		latestStats.inboundSequenceNumberInitialized = true
